@@ -1335,6 +1335,93 @@ def oracle(case, g):
     return viol
 
 
+# ------------------------------------------------------------------ histories over one proxied struct (harness/cmd/c08hist)
+
+def gen_history(rng):
+    ops = []
+    held = False
+    for _ in range(3 + rng.below(12)):
+        k = rng.below(17)
+        n = 10 + rng.below(90)
+        if k == 0: ops.append("rq")
+        elif k == 1: ops.append("ri")
+        elif k == 2: ops.append("ra")
+        elif k == 3: ops.append("wq:%d" % n)
+        elif k == 4: ops.append("wi:%d" % n)
+        elif k == 5: ops.append("wa:%d" % n)
+        elif k in (6, 7): ops.append("reload")
+        elif k == 8: ops.append("seti:%d" % n)
+        elif k == 9: ops.append("seta:%d" % n)
+        elif k == 10: ops.append("swap")
+        elif k == 11: ops.append(rng.choice(["gq", "gi", "ga"]))
+        elif k == 12:
+            ops.append("hold"); held = True
+        elif k == 13 and held: ops.append("rh")
+        elif k == 14 and held: ops.append("wh:%d" % n)
+        elif k == 15: ops.append("sq:%d" % n)
+        else: ops.append(rng.choice(["rq", "ra", "ri"]))
+    # end with a look at everything from the script's side
+    ops += ["rq", "ri", "ra"]
+    return ops
+
+
+def model_history(ops):
+    """plain Go pointer semantics: Quota / Spare / Any hold references to Quota objects, Inner is a value inside srv"""
+    heap = {0: 1, 1: 7, 2: 3}      # object id -> Max
+    quota, spare, anyp, inner, q = 0, 1, 2, 2, None
+    out = []
+    nxt = [3]
+
+    def new(v):
+        heap[nxt[0]] = v
+        nxt[0] += 1
+        return nxt[0] - 1
+    for op in ops:
+        op, _, arg = op.partition(":")
+        n = int(arg) if arg else 0
+        if op in ("rq", "gq"): out.append(heap[quota])
+        elif op in ("ri", "gi"): out.append(inner)
+        elif op in ("ra", "ga"): out.append(heap[anyp])
+        elif op == "wq": heap[quota] = n
+        elif op == "wi": inner = n
+        elif op == "wa": heap[anyp] = n
+        elif op == "reload": quota = new(heap[quota] * 100 + 1)
+        elif op == "seti": inner = n
+        elif op == "seta": anyp = new(n)
+        elif op == "swap": quota, spare = spare, quota
+        elif op == "hold": q = quota
+        elif op == "rh": out.append(heap[q])
+        elif op == "wh": heap[q] = n
+        elif op == "sq": quota = new(n)
+    return out, (heap[quota], inner, heap[anyp], heap[spare])
+
+
+def run_histories(res, rng, n):
+    """-> (evaluated, violations)"""
+    exe, err = C.go_build("c08hist")
+    if not exe:
+        res.violation({"property": PROP, "kind": "harness-build-failed", "stage": "go build c08hist", "log": err[-3000:]}, nofail=True, tag="build")
+        return 0, None
+    hs = [gen_history(rng) for _ in range(n)]
+    hs = [["rq", "reload", "rq", "wq:5", "gq", "rq"], ["hold", "reload", "rh", "rq", "wh:50", "rq", "gq", "rh"],
+          ["ra", "seta:8", "ra", "wa:6", "ga"], ["rq", "swap", "rq", "wq:9", "swap", "rq", "gq"]] + hs
+    p = subprocess.run([exe], input="\n".join(" ".join(h) for h in hs) + "\n", stdout=subprocess.PIPE, stderr=subprocess.PIPE,
+                       universal_newlines=True, timeout=900)
+    lines = p.stdout.split("\n")
+    viol = []
+    for h, line in zip(hs, lines):
+        want_out, want_go = model_history(h)
+        want = "OK %s | GO %d %d %d %d" % (",".join(str(x) for x in want_out), want_go[0], want_go[1], want_go[2], want_go[3])
+        if line.strip() != want:
+            viol.append({"property": PROP, "kind": "oracle-violation", "aspect": "field-read-is-current",
+                         "why": "a history of script-side reads / writes through nested fields of one proxied struct, interleaved with Go-side "
+                                "changes of those fields, does not show Go's pointer semantics: a read must give the contents the field has "
+                                "NOW, a write must land in the struct the field points to NOW",
+                         "history": " ".join(h), "impl": line.strip()[:300], "expected": want,
+                         "script": "srv := &Srv{Quota:&Quota{Max:1}, Spare:&Quota{Max:7}, Inner:Quota{Max:2}, Any:&Quota{Max:3}}; ops: see harness/cmd/c08hist"})
+    return len(hs), viol
+
+
 def run(res):
     obs, err = C.go_build("c08obs")
     if not obs:
@@ -1446,7 +1533,14 @@ def body(res, obs, model, work, proved):
             cls = "unsupported-type" if "invalid global provided" in raw else None
             note(case, g, ("no-panic", "a value of unsupported kind %s is rejected by a panic in the caller of Eval: %s" % (t["k"], raw[:120]), cls))
 
-    cov["evaluations"] = len(keep)
+    nh, hviol = run_histories(res, rng, 600 if res.tier == "quick" else 20000)
+    if hviol is None:
+        return
+    oracle_viol += hviol
+    cov["histories"] = {"evaluated": nh, "what": "script-side reads / writes through pointer, interface and struct-valued fields of one proxied "
+                        "struct interleaved with Go-side replacements of those fields (methods), references kept by the script; expected "
+                        "observations from a reference model of Go's pointer semantics (checks/c08.py model_history)"}
+    cov["evaluations"] = len(keep) + nh
     cov["distinct_nontrivial"] = len(nontrivial)
     cov["rule"] = ("%d cases: Go types built with reflect (StructOf/SliceOf/ArrayOf/MapOf/PointerTo) to depth 3 over bool, all sized "
                    "ints/uints, floats, string, byte, time.Time, interface{} and a zoo of 16 declared named types, values incl. zero, nil, "
